@@ -513,7 +513,49 @@ pub fn run_c12(ctx: &Ctx) -> i32 {
         }
         extra["stateright_unique_states"] = json!(sr);
     }
+    // the same refusals when the message is handed to the router directly (App::init_modules gives
+    // the router and the chain's own storage, with no transaction around the call): a refused
+    // Migrate / UpdateAdmin / ClearAdmin leaves every byte as it was there too
+    let direct: u64 = with_world(false, |world| {
+        use cw_multi_test::CosmosRouter;
+        let mut n = 0u64;
+        let mut targets = vec![ad.a.clone(), ad.b.clone(), ad.c.clone()];
+        if let Some(d) = &d_addr {
+            targets.push(d.clone());
+        }
+        for t in &targets {
+            for sender in [ad.poor.clone(), "random".to_string(), String::new(), ad.c.clone()] {
+                let msgs: Vec<(&str, cosmwasm_std::CosmosMsg)> = vec![
+                    ("migrate", cosmwasm_std::WasmMsg::Migrate { contract_addr: t.clone(), new_code_id: 2, msg: cosmwasm_std::to_json_binary(&super::puppet::NodeMsg { n: 0 }).unwrap() }.into()),
+                    ("update-admin", cosmwasm_std::WasmMsg::UpdateAdmin { contract_addr: t.clone(), admin: ad.poor.clone() }.into()),
+                    ("clear-admin", cosmwasm_std::WasmMsg::ClearAdmin { contract_addr: t.clone() }.into()),
+                ];
+                for (what, msg) in msgs {
+                    world.app.set_block(start12.block.clone());
+                    *world.app.storage_mut() = start12.storage.clone();
+                    let admin = start12.mstate.contracts.get(t).and_then(|c| c.admin.clone());
+                    if admin.as_deref() == Some(sender.as_str()) {
+                        continue;
+                    }
+                    super::puppet::set_script(std::rc::Rc::new(Program { entry: Entry::WasmSudo { contract: String::new() }, root: 0, nodes: vec![mig_node(2, false)] }));
+                    let block = world.app.block_info();
+                    let s2 = sender.clone();
+                    let r = catch(|| world.app.init_modules(|router, api, storage| router.execute(api, storage, &block, Addr::unchecked(s2), msg)));
+                    n += 1;
+                    let changed = world.app.storage().data != start12.storage.data;
+                    match r {
+                        Ok(Err(_)) if !changed => {}
+                        Ok(Err(e)) => ctx.violation("c12:StateOnErr:direct-router", json!({"engine": "direct-router", "what": what, "target": t, "sender": sender, "error": format!("{:#}", e), "detail": "the refused message changed the chain state"})),
+                        Ok(Ok(_)) => ctx.violation("c12:Outcome:direct-router", json!({"engine": "direct-router", "what": what, "target": t, "sender": sender, "detail": "accepted although the sender is not the admin"})),
+                        Err(p) => ctx.violation("c12:Panic:direct-router", json!({"engine": "direct-router", "what": what, "target": t, "sender": sender, "panic": p})),
+                    }
+                }
+            }
+        }
+        n
+    });
     let samples = sample_paths(&out, &alphabet, 3);
+    extra["attempts_by_non_admins_handed_to_the_router_directly"] = json!(direct);
     finish_explore(
         ctx,
         &[("admin-migration", &out)],
